@@ -535,7 +535,7 @@ class FullLib(Lib):
 
     def c_os_stat(self, it, p):
         # a stat failure of any kind is an OSError subclass
-        if it.ctx.branch(it.ctx.fresh("stat_ok", T.B)):
+        if it.ctx.__dict__.get("stat_always_ok") or it.ctx.branch(it.ctx.fresh("stat_ok", T.B)):
             blk = it.ctx.fresh("blksize", T.I)
             it.ctx.assume(blk >= 1)
             return VObj("stat_result", blk=VInt(blk))
@@ -1319,6 +1319,9 @@ class DirLoopLib(LoopLib):
                 raised = None
             except PyRaise as pr:
                 raised = pr.exc.cls
+            if raised is not None and ctx.__dict__.get("fault_mode") is not None \
+                    and ctx.fault_mode["injected"]:
+                raise LemmaDone()      # an injected failure: handled on the main path below
             if raised is not None:
                 ctx.fail(f"{who}/loop-foreach/body-does-not-raise",
                          f"the body may raise {raised} for a listed entry",
@@ -1344,6 +1347,14 @@ class DirLoopLib(LoopLib):
                          "the body does not append exactly the marked path to one list",
                          props=("C11", "C05"))
             raise LemmaDone()
+        fm = ctx.__dict__.get("fault_mode")
+        if fm and fm["budget"] > 0 and not ctx.spec_mode:
+            # an I/O failure inside the loop: an arbitrary subset of the entries was processed
+            if ctx.branch(ctx.fresh("fault_in_loop", T.B)):
+                fm["budget"] -= 1
+                fm["injected"].append(("move", "some entry of the metadata directory"))
+                ctx.st.fs = meta_marked_fs(fs_entry, d, done)
+                raise PyRaise(mkexc("OSError", fault=True))
         # effect of the whole loop: every listed entry is marked
         alln = z3.K(T.S, z3.BoolVal(True))
         ctx.st.fs = meta_marked_fs(fs_entry, d, alln)
